@@ -24,6 +24,8 @@
 (*   ToMultiaddr -> FromStr    socket_addr_to_multiaddr parses its own string :1628 *)
 (*   FourWords -> FromFourWords, FourWords -> FromStr                      *)
 (*   BootEncode -> BootDecode                                              *)
+(*   Reply -> Dial             the string inside a NodesFound reply of a   *)
+(*                             real node, dialled by the node that asked   *)
 (*                                                                         *)
 (* The model sends an address through a producer and along the wiring and  *)
 (* checks at every consumer that the same address comes out.  Addresses:   *)
@@ -45,7 +47,8 @@ Emits == [p \in Producers |->
     [] p = "SockToString" -> {"sock"}
     [] p = "FourWords" -> {"words"}
     [] p = "ToMultiaddr" -> {"multiaddr"}
-    [] p = "BootEncode" -> {"words"}]
+    [] p = "BootEncode" -> {"words"}
+    [] p = "Reply" -> {"sockWords"}]         \* NodeInfo.address as stored by handle_peer_connected (Display of the Multiaddr)
 
 Accepts == [c \in Consumers |->
   CASE c = "FromStr" -> {"sock", "multiaddr", "words"} \cup (IF AsImplemented_FromStrNoSuffix THEN {} ELSE {"sockWords"})
